@@ -3,7 +3,10 @@ use aes::{
     cipher::{NewCipher, StreamCipher, StreamCipherSeek},
     Aes128, Aes128Ctr, Aes256, Aes256Ctr,
 };
-use block_modes::{block_padding::Pkcs7, BlockMode, Cbc};
+use block_modes::{
+    block_padding::{NoPadding, Pkcs7},
+    BlockMode, BlockModeError, Cbc,
+};
 
 pub struct AES;
 
@@ -30,12 +33,24 @@ impl AES {
 
     pub fn decrypt_impl(key: &[u8], iv: &[u8], message: &[u8], algo: AESAlgorithms) -> Result<Vec<u8>, BSVErrors> {
         let result = match algo {
-            AESAlgorithms::AES128_CBC => Cbc::<Aes128, Pkcs7>::new_from_slices(key, iv)?.decrypt_vec(message)?,
-            AESAlgorithms::AES256_CBC => Cbc::<Aes256, Pkcs7>::new_from_slices(key, iv)?.decrypt_vec(message)?,
+            AESAlgorithms::AES128_CBC => AES::strip_pkcs7(Cbc::<Aes128, NoPadding>::new_from_slices(key, iv)?.decrypt_vec(message)?)?,
+            AESAlgorithms::AES256_CBC => AES::strip_pkcs7(Cbc::<Aes256, NoPadding>::new_from_slices(key, iv)?.decrypt_vec(message)?)?,
             AESAlgorithms::AES128_CTR => AES::aes_ctr::<Aes128Ctr>(key, iv, message)?,
             AESAlgorithms::AES256_CTR => AES::aes_ctr::<Aes256Ctr>(key, iv, message)?,
         };
         Ok(result)
+    }
+
+    /// Removes the PKCS#7 padding of a decrypted CBC message: the last byte is a count between 1 and the block size (16)
+    /// and that many final bytes all hold it. (The unpadding of the block-padding crate looks at the whole message, not at
+    /// its last block, and so accepts counts up to 255.)
+    fn strip_pkcs7(mut plain: Vec<u8>) -> Result<Vec<u8>, BSVErrors> {
+        let count = plain.last().cloned().unwrap_or(0) as usize;
+        if count == 0 || count > 16 || count > plain.len() || plain[plain.len() - count..].iter().any(|byte| *byte as usize != count) {
+            return Err(BlockModeError.into());
+        }
+        plain.truncate(plain.len() - count);
+        Ok(plain)
     }
 
     fn aes_ctr<T: NewCipher + StreamCipherSeek + StreamCipher>(key: &[u8], iv: &[u8], message: &[u8]) -> Result<Vec<u8>, BSVErrors> {
